@@ -122,7 +122,9 @@ DirtyNow(s) == {w \in DOMAIN s.w : \E t \in DOMAIN s.w[w].txs :
 Step(hv2) == /\ l' = l + 1 /\ st' = S2 /\ hv' = HvIssued(hv2, S2)
              /\ StateMonitors(E, S2, hv2) /\ NoPanic(E)
              /\ aux' = [aux EXCEPT !.dirty = IF E.ev = "scan" /\ E.res = "ok" THEN (@ \ {E.w}) ELSE @ \cup DirtyNow(S2),
-                                   !.pre = st, !.hvpre = hv, !.ope = E]
+                                   !.pre = st, !.hvpre = hv, !.ope = E,
+                                   \* a restored wallet is "fresh" until its first successful scan / refresh
+                                   !.fresh = IF E.ev \in {"scan", "refresh"} /\ E.res = "ok" THEN @ \ {E.w} ELSE @]
 
 TReset == /\ IsEv("reset")
           /\ l' = l + 1 /\ st' = S2 /\ hv' = HvIssued(EmptyHist(DOMAIN S2.w), S2)
@@ -356,6 +358,9 @@ TRefresh ==
           /\ LedgerEquality(e, S2)
      /\ (Ok(e) /\ e.refreshed) =>
           Check(RevertedRestored(st, S2, w, utxo), "C18", "RevertedRestored", e, "refresh")
+     /\ (Ok(e) /\ e.refreshed /\ w \in aux.fresh) =>
+          \* the first refresh of a restored wallet is a full scan
+          Check(RestoredExact(S2, w, utxo, LAMBDA o : HeightOfOut(S2, o)), "C16", "RestoredExact", e, "first refresh")
      /\ (Ok(e) /\ e.refreshed) =>
           \* C17: own expired unconfirmed entries are cancelled and their inputs released
           Check(\A t \in expired : t \in DOMAIN S2.w[w].txs =>
